@@ -17,6 +17,13 @@ pub fn item_cases() -> Vec<Item> {
             v.push(Item::new(ty, &vec![b'v'; n]));
         }
     }
+    // a prefix set on a non-PRIV item is documented as ignored: whatever its length, the item is judged (and
+    // written) by its value alone
+    for pl in [1usize, 254, 255, 256, 300] {
+        for n in [0usize, 255, 256] {
+            v.push(Item { ty: 2, prefix: vec![0x71u8; pl], value: vec![b'w'; n] });
+        }
+    }
     // PRIV: the band prefix+value in 253..=256
     for pl in [0usize, 1, 127, 253, 254, 255, 256, 300] {
         for total in [253usize, 254, 255, 256] {
@@ -123,6 +130,19 @@ pub fn rule_spaces(_tier: Tier) -> Vec<CfgSpace> {
     v.push(CfgSpace::new("rules-feedback", rl, move |idx| {
         let c = r.coords(idx);
         Pkt::Fb { kind: if c[1] == 0 { Kind::Transport } else { Kind::Payload }, sender: 1, media: 2, fci: fcis[c[2] as usize].clone(), pad: c[0] as u8 }
+    }));
+
+    // list lengths where a count narrowed to 8 or 16 bits wraps back into 0..=31: 256.., 512.., 65536..
+    let wide: [usize; 12] = [34, 255, 256, 257, 287, 288, 511, 512, 543, 65_535, 65_536, 65_567];
+    v.push(CfgSpace::new("rules-wide-counts", 12 * 4 * 2, move |idx| {
+        let n = wide[(idx % 12) as usize];
+        let pad = if idx / 48 == 0 { 0u8 } else { 5 };
+        match (idx / 12) % 4 {
+            0 => Pkt::Sr { ssrc: 1, ntp: 2, rtp: 3, pc: 4, oc: 5, blocks: (0..n).map(|i| sentinel_rb(i, 0)).collect(), pad },
+            1 => Pkt::Rr { ssrc: 1, blocks: (0..n).map(|i| sentinel_rb(i, 0)).collect(), pad },
+            2 => Pkt::Bye { ssrcs: (0..n as u32).collect(), reason: String::new(), pad },
+            _ => Pkt::Sdes { chunks: (0..n).map(|i| Chunk { ssrc: i as u32, items: vec![] }).collect(), pad },
+        }
     }));
 
     // total size one word under / at / over 65536 words (large allocations; a few dozen cases)
